@@ -69,6 +69,52 @@ def lint_j_fixture_matches() -> bool:
   return lint.handler_around_loop(c, [fixture_module("lint_j.py")]) == 1 and len(c.bads) == 1
 
 
+def lint_l_fixture_matches() -> bool:
+  from .rules import lint
+  c = _NullCtx(_FakeIndex())
+  c.where = lambda mod, n: "fixture"
+  return lint.duplicate_components(c, [fixture_module("lint_l.py")]) == 1 and len(c.bads) == 1
+
+
+def state_share_fixture_matches() -> bool:
+  import ast
+  from .core import FuncInfo
+  from .rules import shape
+  m = fixture_module("state_share.py")
+
+  class _Ix(_FakeIndex):
+    modules = {m.name: m}
+  fs = [FuncInfo(n.name, f"{m.name}:{n.name}", m, n, None, None) for n in m.tree.body if isinstance(n, ast.FunctionDef)]
+  c = _NullCtx(_Ix())
+  c.where = lambda mod, n: "fixture"
+  shape.check_no_shared_containers(c, fs)
+  return len(c.bads) == 1 and "merge|" in c.bads[0][1]
+
+
+def item_source_fixture_matches() -> bool:
+  import ast
+  from .core import FuncInfo
+  from .rules import shape
+  m = fixture_module("item_source.py")
+  fs = [FuncInfo(n.name, f"{m.name}:{n.name}", m, n, None, None) for n in m.tree.body if isinstance(n, ast.FunctionDef)]
+  c = _NullCtx(_FakeIndex())
+  c.where = lambda mod, n: "fixture"
+  shape.check_item_sources(c, fs)
+  return len(c.bads) == 1 and "copy_lines|" in c.bads[0][1]
+
+
+def nul_known_fixture_matches() -> bool:
+  import ast
+  from .core import FuncInfo
+  from .rules import nul
+  m = fixture_module("nul_known.py")
+  fs = [FuncInfo(n.name, f"{m.name}:{n.name}", m, n, None, None) for n in m.tree.body if isinstance(n, ast.FunctionDef)]
+  c = _NullCtx(_FakeIndex())
+  c.where = lambda mod, n: "fixture"
+  nul.check_known_none(c, fs)
+  return len(c.bads) == 1 and "disassemble|" in c.bads[0][1]
+
+
 def lint_k_fixture_matches() -> bool:
   import ast
   from .core import ClassInfo, FuncInfo
